@@ -203,9 +203,11 @@ Definition annotate (p : program E) : program E * list block :=
 
 End Annotate.
 
-(* ---- which bodies compile to no instructions (compiler.go) ----
-   c.stmt(BlockStmt) is c.stmts(s.Body): a block of (nested) empty blocks emits nothing; every
-   other statement emits at least one opcode. *)
+(* ---- what the compiler and the interpreter make of a body (compiler.go Compile) ----
+   c.stmt(BlockStmt) is c.stmts(s.Body), so a body of (nested) empty blocks emits no opcode;
+   [codeless_stmt] names that shape.  Compile adds a Nop whenever the compiled body of an action
+   or of an END block is empty ("if len(c.code) == 0 { c.add(Nop) }"), be it a bare {} or
+   { { } }: only a missing action body (Stmts == nil) has no code. *)
 Section Codeless.
 Context {E : Type}.
 Fixpoint codeless_stmt (s : cstmt E) : bool :=
@@ -213,18 +215,16 @@ Fixpoint codeless_stmt (s : cstmt E) : bool :=
   | SBlock _ _ body => forallb codeless_stmt body
   | _ => false
   end.
-(* Compile, pattern-action blocks: Stmts == nil -> no body; len == 0 -> Nop; else c.stmts.
-   The interpreter prints $0 when len(action.Body) == 0. *)
+(* the interpreter prints $0 when len(action.Body) == 0: exactly when there is no action body *)
 Definition action_prints (b : option (list (cstmt E))) : bool :=
   match b with
   | None => true
-  | Some [] => false
-  | Some l => forallb codeless_stmt l
+  | Some _ => false
   end.
-(* Compile, END blocks: "if len(stmts) > 0 { c.stmts(stmts) } else { c.add(Nop) }", all appended
-   to one sequence; executeAll skips the input when there are no actions and len(End) == 0 *)
+(* every END block contributes at least one opcode to the END sequence; executeAll skips the
+   input when there are no actions and len(End) == 0, i.e. when there is no END block *)
 Definition end_is_empty (ls : list (list (cstmt E))) : bool :=
-  forallb (fun l => match l with [] => false | _ => forallb codeless_stmt l end) ls.
+  match ls with [] => true | _ :: _ => false end.
 End Codeless.
 
 (* ---- specification vocabulary over annotated trees ---- *)
@@ -611,7 +611,7 @@ Fixpoint run_actions (acts : list (action E)) (inrs : list bool) (q : st) : st *
       | (q1, inl true, inr') =>
           let r := match a_body a with
                    | Some body =>
-                       if action_prints (a_body a) then print_q q1   (* compiled to no code *)
+                       if action_prints (a_body a) then print_q q1   (* never: a present body has code *)
                        else xlist body q1
                    | None => print_q q1                              (* no action = print $0 *)
                    end in
